@@ -647,3 +647,88 @@ def self_verified_condition():
 
 
 SCENARIOS += [self_verified_condition()]
+
+
+def literal_contents(fmt):
+    """LiteralData.contents: what a signed literal message offers to verify() as its signed data. The hash input of a document signature is
+    the octets of this value (hashdata: a str is encoded, octets are taken as they are), so the value must determine the packet's octets: for
+    format 'u' a str whose UTF-8 octets are exactly the packet's, or an error; for 't' one code point per octet; otherwise the octets
+    themselves. A lossy conversion (replacement characters, dropped octets) would let octets nobody signed verify."""
+    label = 'C01/LiteralData.contents[format %r]' % fmt
+    LIT = 'pgpy.packet.packets.LiteralData'
+
+    def gen(repo):
+        r = scn.Run(repo, LIT, 'contents', label)
+        ex, st = r.ex, r.st
+        DATA = z3.Const('LITERAL_OCTETS', E.BYTES)
+        me = E.VObj(LIT, 'pkt')
+        r.set('pkt', 'format', E.VStr(s=fmt))
+        buf = ex.new_buf(st, DATA)
+        r.set('pkt', '_contents', buf)
+        nval = 0
+        for pi, (s, v) in enumerate(r.call(me, [])):
+            if isinstance(v, E.Raise):
+                r.oblige(s, 'refusal-only-for-text-that-is-not-utf-8,as-an-error/p%d' % pi,
+                         z3.BoolVal(fmt == 'u' and v.exc.split(':')[0] in ('UnicodeDecodeError', 'ValueError')), v.where)
+                continue
+            nval += 1
+            r.oblige(s, 'packet-octets-untouched/p%d' % pi, s.heap[buf.cell] == DATA)
+            if fmt in ('u', 't'):
+                r.oblige(s, 'text/p%d' % pi, z3.BoolVal(isinstance(v, E.VStr)))
+                if not isinstance(v, E.VStr):
+                    continue
+                if fmt == 't':
+                    r.oblige(s, 'one-code-point-per-octet/p%d' % pi, z3.And(z3.BoolVal(bool(getattr(v, 'cp', False))), v.z == DATA))
+                else:
+                    # a str that is not a code-point sequence is represented by its UTF-8 octets (DESIGN A8)
+                    r.oblige(s, 'the-utf-8-octets-of-the-text-are-exactly-the-packet-octets/p%d' % pi,
+                             z3.And(z3.BoolVal(not getattr(v, 'cp', False) and v.z is not None), v.z == DATA) if v.z is not None else z3.BoolVal(False))
+            else:
+                r.oblige(s, 'the-octets-themselves/p%d' % pi, ex.seq(v, s) == DATA)
+        r.oblige(st, 'cover-a-value', z3.BoolVal(nval > 0))
+        return r.result()
+    return Scenario(label, LIT + '.contents', gen, props=('C01', 'C20', 'C17'))
+
+
+def message_signed_data(kind):
+    """PGPMessage.message: the subject verify() takes from a message object: the literal packet's contents, the cleartext as text whose
+    UTF-8 octets are the stored ones, the encrypted container itself"""
+    label = 'C01/PGPMessage.message[%s]' % kind
+    MSGC, LIT = 'pgpy.pgp.PGPMessage', 'pgpy.packet.packets.LiteralData'
+
+    def gen(repo):
+        r = scn.Run(repo, MSGC, 'message', label)
+        ex, st = r.ex, r.st
+        me = E.VObj(MSGC, 'msg')
+        r.hook(MSGC, 'type', scn.const(E.VStr(s=kind)))
+        TEXT = z3.Const('CLEARTEXT_UTF8', E.BYTES)
+        contents = E.VBytes(z3.Const('LITERAL_CONTENTS', E.BYTES))
+        if kind == 'literal':
+            body = E.VObj(LIT, 'lit')
+            r.hook(LIT, 'contents', scn.const(contents))
+        elif kind == 'encrypted':
+            body = E.VObj('pgpy.packet.packets.IntegrityProtectedSKEDataV1', 'seipd')
+        elif kind == 'cleartext (octets)':
+            r.hook(MSGC, 'type', scn.const(E.VStr(s='cleartext')))
+            body = ex.new_buf(st, TEXT)
+        else:
+            body = E.VStr(z=TEXT)
+        r.set('msg', '_message', body)
+        for pi, (s, v) in enumerate(r.call(me, [])):
+            if isinstance(v, E.Raise):
+                r.oblige(s, 'refusal-only-for-stored-octets-that-are-not-utf-8,as-an-error/p%d' % pi,
+                         z3.BoolVal(kind == 'cleartext (octets)' and v.exc.split(':')[0] in ('UnicodeDecodeError', 'ValueError')), v.where)
+                continue
+            if kind == 'literal':
+                r.oblige(s, 'the-contents-of-the-literal-packet/p%d' % pi, z3.BoolVal(v is contents))
+            elif kind == 'encrypted':
+                r.oblige(s, 'the-container-itself/p%d' % pi, z3.BoolVal(v is body))
+            else:
+                r.oblige(s, 'the-text-whose-utf-8-octets-are-the-stored-ones/p%d' % pi,
+                         z3.And(z3.BoolVal(isinstance(v, E.VStr) and v.z is not None and not getattr(v, 'cp', False)), v.z == TEXT)
+                         if isinstance(v, E.VStr) and v.z is not None else z3.BoolVal(False))
+        return r.result()
+    return Scenario(label, MSGC + '.message', gen, props=('C01', 'C20', 'C11', 'C17'))
+
+
+SCENARIOS += [literal_contents(f) for f in ('u', 't', 'b', 'm')] + [message_signed_data(k) for k in ('literal', 'encrypted', 'cleartext', 'cleartext (octets)')]
